@@ -229,7 +229,10 @@ Definition step (s : st) (ac : action) : option st :=
       match stk s t with
       | FRun c :: rest =>
           match gst (co s c), upc (co s c) with
-          | GLive, Idle => Some (add_hand (set_stk (on_co s c (fun x => c_loc x (LH t))) t (FKer c K0 :: rest)) t c)
+          | GLive, Idle
+          | GLive, JW0 _ _          (* Park::drop of the blocker waits for the kernel half of the park with yield_now() *)
+          | GLive, CRet             (* the same when trigger drops the last reference to the waiter's blocker *)
+            => Some (add_hand (set_stk (on_co s c (fun x => c_loc x (LH t))) t (FKer c K0 :: rest)) t c)
           | GLive, JW3 d m b => Some (add_hand (set_stk (on_co s c (fun x => c_loc (c_upc x (JW3p d m b)) (LH t))) t (FKer c K0 :: rest)) t c)
           | _, _ => None end
       | _ => None end
